@@ -9,7 +9,7 @@ Local Open Scope list_scope.
 (** ** With no allowed paths configured nothing is touched *)
 Lemma validate_empty : forall path, validate_path [] path = VRefused.
 Proof.
-  intros path. unfold validate_path.
+  intros path. unfold validate_path, normalize_for_check.
   destruct (contains_dangerous path); [reflexivity|].
   destruct (clean_text path) as [abs cs].
   destruct (negb abs); [reflexivity|].
@@ -74,7 +74,7 @@ Proof. intros c []. Qed.
 
 Lemma validate_no_dotdot : forall allowed path cs, validate_path allowed path = VOk cs -> no_dotdot cs.
 Proof.
-  intros allowed path cs H. unfold validate_path in H.
+  intros allowed path cs H. unfold validate_path, normalize_for_check in H.
   destruct (contains_dangerous path); [discriminate|]. destruct (clean_text path) as [abs cs'] eqn:C.
   destruct (negb abs); [discriminate|].
   destruct (existsb (fun c => contains c "..") cs') eqn:E; [discriminate|].
@@ -83,6 +83,16 @@ Proof.
   intros c Hc Ec. subst c.
   assert (X : existsb (fun c => contains c "..") cs' = true) by (apply existsb_exists; exists ".."; split; [exact Hc|reflexivity]).
   rewrite X in E. discriminate.
+Qed.
+
+(** on the byte strings of the model the normalised path and the used path coincide *)
+Lemma validate_used : forall allowed path cs, validate_path allowed path = VOk cs -> used_path path = cs.
+Proof.
+  intros allowed path cs H. unfold validate_path, normalize_for_check, used_path in *.
+  destruct (contains_dangerous path); [discriminate|]. destruct (clean_text path) as [abs cs'].
+  destruct (negb abs); [discriminate|]. destruct (existsb (fun c => contains c "..") cs'); [discriminate|].
+  destruct allowed; [discriminate|].
+  match type of H with context [if ?b then _ else _] => destruct b end; [|discriminate]. injection H as <-. reflexivity.
 Qed.
 
 Lemma plain_of_no_links : forall fs cs, no_dotdot cs -> no_links_on fs cs -> plain [] fs cs /\ last_not_link [] fs cs.
@@ -168,7 +178,8 @@ Proof.
   intros allowed fs r cs F V NL RAW NDot p Hp.
   pose proof (validate_no_dotdot _ _ _ V) as ND.
   assert (RES : forall follow q, resolved fs cs follow = Some q -> q = cs) by (intros; eapply resolved_is_request; eassumption).
-  destruct r as [path data|path|path|path|path mode|path rc]; cbn [request_path] in V, RAW; unfold exec in Hp; rewrite ?V in Hp.
+  destruct r as [path data|path|path|path|path mode|path rc]; cbn [request_path] in V, RAW; unfold exec in Hp; rewrite ?V in Hp;
+    cbv zeta in Hp; rewrite ?(validate_used _ _ _ V) in Hp.
   - (* upload *)
     destruct (mkdir_all fs (parent cs)) as [fs1 e1] eqn:M. cbn [fst].
     destruct e1 as [e|]; [right; exists path, data; split; [reflexivity|exact Hp]|].
@@ -198,21 +209,21 @@ Proof.
       try (apply in_app_or in Hp; destruct Hp as [Hp|Hp]; apply opt_list_in in Hp; [apply RR in Hp|apply RES in Hp]; subst; left; apply is_prefix_refl);
       try (apply opt_list_in in Hp; apply RR in Hp; subst; left; apply is_prefix_refl).
   - (* list *)
-    destruct (String.eqb path ""); [destruct Hp|]. rewrite ?V in Hp.
+    destruct (String.eqb path ""); [destruct Hp|]. rewrite ?V in Hp. cbv zeta in Hp. rewrite ?(validate_used _ _ _ V) in Hp.
     destruct (sys_stat fs cs) as [[[i| |t]|]|e]; destruct (resolved fs cs true) as [q|] eqn:R; cbn [failed o_touched] in Hp;
       try (destruct Hp; fail); try (destruct Hp as [<-|[]]; apply RES in R; subst; left; apply is_prefix_refl).
   - (* stat *)
-    destruct (String.eqb path ""); [destruct Hp|]. rewrite ?V in Hp.
+    destruct (String.eqb path ""); [destruct Hp|]. rewrite ?V in Hp. cbv zeta in Hp. rewrite ?(validate_used _ _ _ V) in Hp.
     destruct (entry_text fs (base_name cs) cs true); cbn [failed o_touched] in Hp; [|destruct Hp].
     apply in_app_or in Hp. destruct Hp as [Hp|Hp]; apply opt_list_in in Hp; apply RES in Hp; subst; left; apply is_prefix_refl.
   - (* chmod *)
-    destruct (String.eqb path ""); [destruct Hp|]. rewrite ?V in Hp.
+    destruct (String.eqb path ""); [destruct Hp|]. rewrite ?V in Hp. cbv zeta in Hp. rewrite ?(validate_used _ _ _ V) in Hp.
     destruct (parse_mode mode); [|destruct Hp].
     destruct (resolved fs cs true) as [q|] eqn:R; [|destruct Hp].
     destruct (entry_text fs (base_name cs) cs false); cbn [failed o_touched] in Hp;
       destruct Hp as [<-|[]]; apply RES in R; subst; left; apply is_prefix_refl.
   - (* delete *)
-    destruct (String.eqb path ""); [destruct Hp|]. rewrite ?V in Hp.
+    destruct (String.eqb path ""); [destruct Hp|]. rewrite ?V in Hp. cbv zeta in Hp. rewrite ?(validate_used _ _ _ V) in Hp.
     destruct (entry_text fs (base_name cs) cs false); [|destruct Hp].
     set (isdir := match sys_lstat fs cs with inl (Some (LinkO _)) => entry_is_dir fs cs | inl (Some DirO) => true | _ => false end) in *.
     assert (LST : forall x, In x (if isdir then opt_list (resolved fs cs true) else []) -> is_prefix cs x = true).
@@ -266,7 +277,7 @@ Qed.
 
 Lemma validate_matches : forall allowed path cs, validate_path allowed path = VOk cs -> matches_allow allowed cs = true.
 Proof.
-  intros allowed path cs H. unfold validate_path in H.
+  intros allowed path cs H. unfold validate_path, normalize_for_check in H.
   destruct (contains_dangerous path); [discriminate|]. destruct (clean_text path) as [abs cs'].
   destruct (negb abs); [discriminate|]. destruct (existsb (fun c => contains c "..") cs'); [discriminate|].
   destruct allowed as [|a al]; [discriminate|].
